@@ -418,8 +418,14 @@ def unwrap_gamma(t):
     while stack:
         x = stack.pop()
         if isinstance(x, T) and x.op == 'gamma':
-            stack.append(x.args[1])
-            stack.append(x.args[2])
+            c = x.args[0]
+            if isinstance(c, T) and c.op == 'const' and c.args[0] is True:
+                stack.append(x.args[1])     # a literal flag handed to an inlined helper (`copy=True`): only the live branch is an alternative
+            elif isinstance(c, T) and c.op == 'const' and c.args[0] is False:
+                stack.append(x.args[2])
+            else:
+                stack.append(x.args[1])
+                stack.append(x.args[2])
         elif isinstance(x, T) and x.op == 'refine':
             stack.append(x.args[0])
         else:
@@ -1044,6 +1050,8 @@ def last_axis_product_sum(t):
 def abs_square_operand(t):
     """t is |x|^2 elementwise, spelled abs(x) ** 2 | abs(x) * abs(x) | (conj(x) * x)[.real] | x.real ** 2 + x.imag ** 2 | x ** 2 / x * x (real x): -> x, else None"""
     t = strip_views(t)
+    if t.op == 'call' and call_parts(t)[0] == 'pb_bss.utils::abs_square' and call_arg(t, 0) is not None:
+        return strip_views(call_arg(t, 0))       # the package's own |x|^2 (its body is checked with the masks, C18)
     if t.op == 'attr' and t.args[1] == 'real':
         inner = abs_square_operand(t.args[0])
         return inner if inner is not None and _is_conj_product(strip_views(t.args[0])) else None
